@@ -3,6 +3,7 @@ package main
 // Correspondence (tie 2): model observation vs real observation per render op.
 
 import (
+	"strings"
 	"fmt"
 	"go/format"
 	"runtime"
@@ -158,6 +159,14 @@ func RunAll(cases []*Case, formSeed uint64) ([]*CaseRun, error) {
 			defer wg.Done()
 			defer func() { <-sem }()
 			fc := &FormChooser{r: NewRng(formSeed + uint64(i)*7919), Fixed: -1}
+			// cases that pin the way every construct is called: "-plain" = the plain variant of
+			// every choice (no ...Func, no Do wrapping; the term's own structure decides between
+			// package function, Statement method and Group method), "-func" = the Func variants
+			if strings.HasSuffix(cases[i].ID, "-plain") {
+				fc.Fixed = 0
+			} else if strings.HasSuffix(cases[i].ID, "-func") {
+				fc.Fixed = 2
+			}
 			real, bp := RunReal(cases[i], fc, false)
 			cr := &CaseRun{Case: cases[i], Model: model[i], Real: real, BuildPanic: bp}
 			cr.Dis = compareCase(cases[i], model[i], real, bp)
